@@ -4,9 +4,9 @@ use crate::__verif_common::*;
 use crate::{Limb, Uint, Word};
 
 macro_rules! inv_mod2k {
-    ($name:ident, $L:expr, $a:expr) => {
+    ($name:ident, $L:expr, $U:expr, $a:expr) => {
         #[kani::proof]
-        #[kani::unwind(20)]
+        #[kani::unwind($U)]
         fn $name() {
             const L: usize = $L;
             let bits = Uint::<L>::BITS;
@@ -38,8 +38,8 @@ macro_rules! inv_mod2k {
     };
 }
 //@ name=c10_k8_inv_mod2k_1 prop=C10,C15,C11 tier=quick profile=k8 funcs="Uint::inv_mod2k,Uint::inv_mod2k_vartime,Uint::inv_mod2k_full_vartime" bound="u8 words, Uint<1>: every a, every k in 0..=8" free_bits=12 core=C15,C11
-inv_mod2k!(c10_k8_inv_mod2k_1, 1, any_uint());
+inv_mod2k!(c10_k8_inv_mod2k_1, 1, 20, any_uint());
 //@ name=c10_k8_inv_mod2k_2 prop=C10,C15,C11 tier=quick profile=k8 funcs="Uint::inv_mod2k,Uint::inv_mod2k_vartime,Uint::inv_mod2k_full_vartime" bound="u8 words, Uint<2>: every a, every k in 0..=16" free_bits=21
-inv_mod2k!(c10_k8_inv_mod2k_2, 2, any_uint());
+inv_mod2k!(c10_k8_inv_mod2k_2, 2, 20, any_uint());
 //@ name=c10_k8_inv_mod2k_3 prop=C10,C15,C11 tier=thorough profile=k8 funcs="Uint::inv_mod2k,Uint::inv_mod2k_vartime,Uint::inv_mod2k_full_vartime" bound="u8 words, Uint<3>: a = [free, S(2), S(2)], every k in 0..=24" free_bits=19
-inv_mod2k!(c10_k8_inv_mod2k_3, 3, Uint::new([Limb(kani::any()), Limb(shaped_word(2)), Limb(shaped_word(2))]));
+inv_mod2k!(c10_k8_inv_mod2k_3, 3, 28, Uint::new([Limb(kani::any()), Limb(shaped_word(2)), Limb(shaped_word(2))]));
